@@ -319,6 +319,40 @@ func specExpire(logs []LogRecord, cfg *LogExpirationConfig) []LogRecord {
 	return out
 }
 
+// Harness_C07_quads: deeper stacks, where one ref is rewritten by many successive tables while other names sort in front of it (the merge queue holds several entries with equal keys at once).
+// bounds: 4 tables (thorough 5), each holding one ref record: name in {a,b,c}, a value or a deletion, value byte symbolic; every range [first,last]; refs only
+// covers: done
+func Harness_C07_quads() {
+	cfg := Config{BlockSize: 256, HashID: SHA1ID}
+	k := 4 + VerifTier()
+	var specs []tabSpec
+	var readers []*Reader
+	for t := 0; t < k; t++ {
+		var ts tabSpec
+		ui := uint64(t + 1)
+		nm := []string{"a", "b", "c"}[VerifChoose(3)]
+		if VerifChoose(2) == 1 {
+			ts.refs = append(ts.refs, RefRecord{RefName: nm, UpdateIndex: ui, Value: hashWith(20, VerifU8(), byte(t))})
+		} else {
+			ts.refs = append(ts.refs, RefRecord{RefName: nm, UpdateIndex: ui})
+		}
+		specs = append(specs, ts)
+		readers = append(readers, writeTabSpec(cfg, ts, ui, ui, string([]byte{'t', '0' + byte(t)})))
+	}
+	wantRefs, _ := expectedView(specs, 20, false)
+	before := stackView(cfg, readers)
+	VerifAssert(sameRefs(scanAllRefs(before, "before-scan"), wantRefs), "before-refs-match-model")
+	first := VerifIntRange(0, k-1)
+	last := VerifIntRange(first, k-1)
+	readers2, _ := compactOnce(cfg, readers, first, last, nil)
+	if readers2 == nil {
+		return
+	}
+	after := stackView(cfg, readers2)
+	VerifAssert(sameRefs(scanAllRefs(after, "after-scan"), wantRefs), "compaction-changed-refs")
+	VerifCover("done")
+}
+
 // Harness_C13_expiry: CompactAll's rewrite with an expiry configuration drops exactly the expired entries and alters no ref.
 // bounds: 2 tables (thorough 3), each one ref and 1..2 reflog entries for names a,b with symbolic time (0..255; the entries carry hashes, so time 0 does not make them deletions) and distinct concrete update indices 1..2k; the three limits Time, MinUpdateIndex, MaxUpdateIndex are arbitrary 64-bit values (0 = unset)
 // covers: done
